@@ -4,7 +4,7 @@
    with the one property each that the agreement needs (visible premises of the theorems). *)
 From Coq Require Import List NArith Bool Lia Arith.
 From RPFT Require Import Base.Sexp Base.PyStr Base.PyStrFacts Base.Result Base.ODict Gen.Tables
-  Io.Csv Io.Sanitize Io.IoFacts Io.SanitizeFacts Io.JsonTableFacts.
+  Io.Csv Io.Sanitize Io.TreeFlags Io.IoFacts Io.SanitizeFacts Io.JsonTableFacts.
 Import ListNotations.
 
 (* the toolkit's CSV reader / tablib's CSV export at the regenerated dialect *)
@@ -24,6 +24,47 @@ Definition cr_free (t : table str str) : Prop := Forall (Forall no_cr) (package_
 
 Definition no_empty_row (t : table str str) : Prop :=
   Forall (fun r => exists s, In s r /\ s <> []) (rws t).
+
+(* ================================================================== rows without content *)
+
+Lemma keep_row_exists r : keep_row r = true <-> exists s, In s r /\ s <> [].
+Proof.
+  unfold keep_row. rewrite existsb_exists. split; intros [s [Hin Hs]]; exists s; (split; [exact Hin|]).
+  - destruct s; [discriminate|discriminate].
+  - destruct s; [congruence|reflexivity].
+Qed.
+
+Lemma drop_empty_rows_id {H} (t : table H str) :
+  Forall (fun r => exists s, In s r /\ s <> []) (rws t) -> drop_empty_rows t = t.
+Proof.
+  intros Hr. destruct t as [h rows]. unfold drop_empty_rows. cbn [hdr rws] in *. f_equal.
+  apply filter_id. revert Hr. apply Forall_impl. intros r Hx. apply (proj2 (keep_row_exists r)). exact Hx.
+Qed.
+
+Lemma drop_if_id {H} b (t : table H str) :
+  Forall (fun r => exists s, In s r /\ s <> []) (rws t) -> drop_if b t = t.
+Proof. intros Hr. destruct b; [apply drop_empty_rows_id, Hr|reflexivity]. Qed.
+
+Lemma drop_empty_rows_idem {H} (t : table H str) : drop_empty_rows (drop_empty_rows t) = drop_empty_rows t.
+Proof.
+  unfold drop_empty_rows. cbn [hdr rws]. f_equal. apply filter_id. apply Forall_forall.
+  intros r Hin. apply filter_In in Hin. exact (proj2 Hin).
+Qed.
+
+Lemma rect_drop_empty_rows {H} (t : table H str) : rect t -> rect (drop_empty_rows t).
+Proof.
+  unfold rect, drop_empty_rows. cbn [hdr rws]. intros Hr. apply Forall_forall. intros r Hin.
+  apply filter_In in Hin. rewrite Forall_forall in Hr. apply Hr. exact (proj1 Hin).
+Qed.
+
+Lemma rect_drop_if {H} b (t : table H str) : rect t -> rect (drop_if b t).
+Proof. destruct b; [apply rect_drop_empty_rows|exact (fun x => x)]. Qed.
+
+Lemma hdr_drop_if {H} b (t : table H str) : hdr (drop_if b t) = hdr t.
+Proof. destruct b; reflexivity. Qed.
+
+Lemma lift_drop_empty_rows t : lift_table (drop_empty_rows t) = drop_empty_rows (lift_table t).
+Proof. reflexivity. Qed.
 
 (* ================================================================== one sheet, CSV *)
 
@@ -69,6 +110,19 @@ Proof.
     unfold csv_norm. destruct t as [h rows]. cbn [hdr rws] in *. apply csv_import_set_rect; assumption.
 Qed.
 
+(* CSVSheetReader on the exported file: load_csv, then the rows without content go on a tree that
+   omits them *)
+Definition read_csv (fl : reader_flags) (translated : bool) : str -> result io_err (table str str) :=
+  read_csv_sheet csv_delimiter csv_quotechar csv_field_limit translated fl.
+
+Theorem csv_reader_sheet fl translated t :
+  hdr t <> [] -> rect t -> cells_fit t ->
+  read_csv fl translated (export_csv t) = Ok (drop_if (rf_csv_drop fl) (csv_norm translated t)).
+Proof.
+  intros Hh Hr Hf. unfold read_csv, read_csv_sheet.
+  pose proof (csv_sheet translated t Hh Hr Hf) as E. unfold load_csv in E. rewrite E. reflexivity.
+Qed.
+
 (* ================================================================== one sheet, XLSX *)
 
 (* what openpyxl returns for a string cell: None for '', else the text with CR LF / CR
@@ -109,11 +163,19 @@ Proof.
   destruct (translate s) eqn:E; [apply translate_nil_inv in E; congruence|reflexivity].
 Qed.
 
-Theorem xlsx_sheet t :
-  hdr t <> [] -> Forall (fun s => s <> []) (hdr t) -> rect t -> no_empty_row t ->
-  read_xlsx_sheet (xl_grid t) = Ok (lift_table (tr_table t)).
+Lemma no_empty_row_tr t : no_empty_row t -> no_empty_row (tr_table t).
 Proof.
-  intros Hh Hne Hr Hrows. unfold read_xlsx_sheet, xl_grid. rewrite package_rows_hdr by exact Hh.
+  unfold no_empty_row, tr_table. cbn [rws]. intros H. apply Forall_map. revert H. apply Forall_impl.
+  intros r Hx. apply (proj1 (keep_row_exists _)). apply keep_row_translate. exact Hx.
+Qed.
+
+(* every sheet of the property's domain: the XLSX reader returns the newline-normalised table
+   WITHOUT its rows of empty cells (`_sanitize` has always omitted them) *)
+Theorem xlsx_sheet_gen t :
+  hdr t <> [] -> Forall (fun s => s <> []) (hdr t) -> rect t ->
+  read_xlsx_sheet (xl_grid t) = Ok (lift_table (drop_empty_rows (tr_table t))).
+Proof.
+  intros Hh Hne Hr. unfold read_xlsx_sheet, xl_grid. rewrite package_rows_hdr by exact Hh.
   cbn [map xlsx_import_sheet]. rewrite set_headers_empty.
   assert (Hrx : Forall (fun r => length r = length (map xl_cell (hdr t))) (map (map xl_cell) (rws t))).
   { apply Forall_map. revert Hr. unfold rect. apply Forall_impl. intros r Hlen. rewrite !map_length. exact Hlen. }
@@ -123,7 +185,7 @@ Proof.
   assert (Hstrip : strip_none (map xl_cell (hdr t)) = map xl_cell (hdr t)).
   { apply strip_none_all_some. rewrite Hsome. apply Forall_map. apply Forall_forall. intros s _. discriminate. }
   rewrite sanitize_imported; cbn [hdr rws]; [|exact Hrx|].
-    unfold str in *.   - rewrite Hstrip. unfold lift_table, tr_table. cbn [hdr rws]. f_equal. f_equal; [exact Hsome|].
+    unfold str in *.   - rewrite Hstrip. unfold lift_table, drop_empty_rows, tr_table. cbn [hdr rws]. f_equal. f_equal; [exact Hsome|].
     rewrite map_map.
     assert (Em : map (fun r => sanitize_row (length (map xl_cell (hdr t))) (map xl_cell r)) (rws t)
                  = map (map translate) (rws t)).
@@ -132,10 +194,16 @@ Proof.
       assert (El : length (map xl_cell (hdr t)) = length (map translate r)).
       { rewrite !map_length. symmetry. apply Hr, Hin. }
       rewrite El. apply firstn_all. }
-    transitivity (filter keep_row (map (map translate) (rws t))); [f_equal; exact Em|].
-    apply filter_id. apply Forall_map. revert Hrows. unfold no_empty_row. apply Forall_impl.
-    exact keep_row_translate.
+    etransitivity; [apply (f_equal (filter keep_row)); exact Em|reflexivity].
   - unfold str in *. rewrite Hstrip. destruct (hdr t); [congruence|discriminate].
+Qed.
+
+Theorem xlsx_sheet t :
+  hdr t <> [] -> Forall (fun s => s <> []) (hdr t) -> rect t -> no_empty_row t ->
+  read_xlsx_sheet (xl_grid t) = Ok (lift_table (tr_table t)).
+Proof.
+  intros Hh Hne Hr Hrows. rewrite (xlsx_sheet_gen t Hh Hne Hr).
+  rewrite (drop_empty_rows_id (tr_table t)); [reflexivity|]. apply no_empty_row_tr. exact Hrows.
 Qed.
 
 (* explicit empty cells to the right of the table (columns without header) make openpyxl report
@@ -143,11 +211,11 @@ Qed.
 Definition widen (k : nat) (grid : list (list xcell)) : list (list xcell) :=
   map (fun r => r ++ repeat None k) grid.
 
-Theorem xlsx_sheet_stray t k :
-  hdr t <> [] -> Forall (fun s => s <> []) (hdr t) -> rect t -> no_empty_row t ->
-  read_xlsx_sheet (widen k (xl_grid t)) = Ok (lift_table (tr_table t)).
+Theorem xlsx_sheet_stray_gen t k :
+  hdr t <> [] -> Forall (fun s => s <> []) (hdr t) -> rect t ->
+  read_xlsx_sheet (widen k (xl_grid t)) = Ok (lift_table (drop_empty_rows (tr_table t))).
 Proof.
-  intros Hh Hne Hr Hrows. unfold read_xlsx_sheet, xl_grid, widen. rewrite package_rows_hdr by exact Hh.
+  intros Hh Hne Hr. unfold read_xlsx_sheet, xl_grid, widen. rewrite package_rows_hdr by exact Hh.
   cbn [map xlsx_import_sheet]. rewrite set_headers_empty.
   set (hx := map xl_cell (hdr t)).
   set (rx := map (fun r : list xcell => r ++ repeat None k) (map (map xl_cell) (rws t))).
@@ -164,16 +232,22 @@ Proof.
   pose proof (sanitize_imported (mkT (hx ++ repeat None k) rx) Hrx) as E. cbn [hdr rws] in E.
   rewrite Hstrip in E. specialize (E Hhx).
   etransitivity; [exact E|]. clear E.
-  unfold lift_table, tr_table. cbn [hdr rws]. f_equal. f_equal; [exact Hsome|].
+  unfold lift_table, drop_empty_rows, tr_table. cbn [hdr rws]. f_equal. f_equal; [exact Hsome|].
   assert (Em : map (sanitize_row (length hx)) rx = map (map translate) (rws t)).
   { unfold rx. rewrite !map_map. apply map_ext_in. intros r Hin. unfold sanitize_row. rewrite map_app, map_map.
     rewrite (map_ext _ _ cell_text_xl_cell).
     assert (El : length hx = length (map translate r)).
     { unfold hx. rewrite !map_length. symmetry. unfold rect in Hr. rewrite Forall_forall in Hr. apply Hr, Hin. }
     rewrite El, firstn_app, firstn_all, Nat.sub_diag. cbn [firstn]. apply app_nil_r. }
-  transitivity (filter keep_row (map (map translate) (rws t))); [f_equal; exact Em|].
-  apply filter_id. apply Forall_map. revert Hrows. unfold no_empty_row. apply Forall_impl.
-  exact keep_row_translate.
+  etransitivity; [apply (f_equal (filter keep_row)); exact Em|reflexivity].
+Qed.
+
+Theorem xlsx_sheet_stray t k :
+  hdr t <> [] -> Forall (fun s => s <> []) (hdr t) -> rect t -> no_empty_row t ->
+  read_xlsx_sheet (widen k (xl_grid t)) = Ok (lift_table (tr_table t)).
+Proof.
+  intros Hh Hne Hr Hrows. rewrite (xlsx_sheet_stray_gen t k Hh Hne Hr).
+  rewrite (drop_empty_rows_id (tr_table t)); [reflexivity|]. apply no_empty_row_tr. exact Hrows.
 Qed.
 
 (* ================================================================== one sheet, JSON *)
@@ -187,6 +261,34 @@ Qed.
 Theorem json_sheet t :
   NoDup (hdr t) -> rect t -> rws t <> [] -> from_dicts (to_dicts t) = Ok t.
 Proof. exact (json_table_roundtrip t). Qed.
+
+(* a table can travel through `convert` + JSONSheetReader when it has a row, or no header, or when
+   the tree writes AND reads the object form that carries the headers of a sheet without rows *)
+Definition json_carries (fl : reader_flags) (t : table str str) : Prop :=
+  rws t <> [] \/ hdr t = [] \/ (rf_tojson_table fl = true /\ rf_json_table fl = true).
+
+Theorem json_sheet_gen fl t :
+  NoDup (hdr t) -> rect t -> json_carries fl t ->
+  read_json_sheet fl (to_json_sheet fl t) = Ok (drop_if (rf_json_drop fl) t).
+Proof.
+  intros Hnd Hr Hc. destruct t as [h rows]. unfold json_carries in Hc. cbn [hdr rws] in *.
+  destruct rows as [|r rows].
+  - (* no rows *)
+    destruct h as [|c h].
+    + unfold to_json_sheet. cbn [hdr rws]. destruct (rf_tojson_table fl); vm_compute; destruct (rf_json_drop fl); reflexivity.
+    + destruct Hc as [Hc|[Hc|[Hw Hrd]]]; [exfalso; apply Hc; reflexivity|discriminate|].
+      unfold to_json_sheet, read_json_sheet. cbn [hdr rws]. rewrite Hw, Hrd. rewrite set_headers_empty. cbn [foldM].
+      destruct (rf_json_drop fl); reflexivity.
+  - assert (E : to_json_sheet fl (mkT h (r :: rows)) = to_dicts (mkT h (r :: rows))).
+    { unfold to_json_sheet. cbn [hdr rws]. destruct (rf_tojson_table fl); [|reflexivity]. destruct h; reflexivity. }
+    rewrite E. unfold read_json_sheet.
+    assert (E2 : from_dicts (to_dicts (mkT h (r :: rows))) = Ok (mkT h (r :: rows))).
+    { apply json_table_roundtrip; cbn [hdr rws]; [exact Hnd|exact Hr|discriminate]. }
+    destruct (to_dicts (mkT h (r :: rows))) eqn:Ed.
+    + rewrite E2. reflexivity.
+    + rewrite E2. reflexivity.
+    + unfold to_dicts in Ed. cbn [hdr rws] in Ed. destruct h; discriminate.
+Qed.
 
 (* ================================================================== workbooks *)
 
@@ -212,6 +314,12 @@ Qed.
 Lemma wb_map_wb_map {S T U} (f : T -> U) (g : S -> T) (wb : workbook S) :
   wb_map f (wb_map g wb) = wb_map (fun x => f (g x)) wb.
 Proof. unfold wb_map. rewrite map_map. reflexivity. Qed.
+
+Lemma wb_map_ext {S T} (f g : S -> T) (wb : workbook S) :
+  Forall (fun p => f (snd p) = g (snd p)) wb -> wb_map f wb = wb_map g wb.
+Proof.
+  unfold wb_map. intros H. apply map_ext_in. intros p Hin. rewrite Forall_forall in H. rewrite (H p Hin). reflexivity.
+Qed.
 
 Lemma Forall_wb_map {S T} (P : str * T -> Prop) (g : S -> T) (wb : workbook S) :
   Forall (fun p => P (fst p, g (snd p))) wb -> Forall P (wb_map g wb).
@@ -256,6 +364,7 @@ Variable json_dumps : workbook jsheet -> J.                    (* json.dumps(...
 Variable json_loads : J -> workbook jsheet.                    (* json.load *)
 Hypothesis xl_roundtrip : forall wb, xl_load (xl_write wb) = wb_map xl_grid wb.
 Hypothesis json_roundtrip : forall b, json_loads (json_dumps b) = b.
+Variable fl : reader_flags.                                    (* rows without content / sheets without rows: per tree *)
 Variable translated : bool.                                    (* how load_csv opens its file *)
 
 Notation d := csv_delimiter.
@@ -263,7 +372,7 @@ Notation q := csv_quotechar.
 
 (* the same abstract workbook through the three formats *)
 Definition via_csv (wb : workbook (table str str)) : result io_err (workbook (table str str)) :=
-  read_csv_wb d q csv_field_limit translated (write_csv_wb d q csv_lineterminator wb).
+  read_csv_wb d q csv_field_limit translated fl (write_csv_wb d q csv_lineterminator wb).
 
 Definition via_xlsx (wb : workbook (table str str)) : result io_err (workbook (table xcell str)) :=
   read_xlsx_wb (xl_load (xl_write wb)).
@@ -272,16 +381,36 @@ Definition via_xlsx (wb : workbook (table str str)) : result io_err (workbook (t
 Definition via_json (wb : workbook (table str str)) : result io_err (workbook (table str str)) :=
   match via_csv wb with
   | Err e => Err e
-  | Ok w => read_json_wb (json_loads (json_dumps (to_json_wb w)))
+  | Ok w => read_json_wb fl (json_loads (json_dumps (to_json_wb fl w)))
   end.
+
+(* the workbook itself written in `convert`'s format (to_json of a reader that holds exactly these
+   sheets — e.g. a file converted earlier), read by JSONSheetReader *)
+Definition via_json_direct (wb : workbook (table str str)) : result io_err (workbook (table str str)) :=
+  read_json_wb fl (json_loads (json_dumps (to_json_wb fl wb))).
+
+Definition cdrop : table str str -> table str str := drop_if (rf_csv_drop fl).
+Definition jdrop : table str str -> table str str := drop_if (rf_json_drop fl).
 
 Definition csv_ok (t : table str str) : Prop := hdr t <> [] /\ rect t /\ cells_fit t.
 
 Theorem via_csv_ok wb :
-  Forall (fun p => csv_ok (snd p)) wb -> via_csv wb = Ok (wb_map (csv_norm translated) wb).
+  Forall (fun p => csv_ok (snd p)) wb -> via_csv wb = Ok (wb_map (fun t => cdrop (csv_norm translated t)) wb).
 Proof.
   intros H. unfold via_csv, read_csv_wb, write_csv_wb. rewrite wb_mapM_wb_map.
-  apply wb_mapM_ok. revert H. apply Forall_impl. intros p [Hh [Hr Hf]]. apply (csv_sheet translated); assumption.
+  apply wb_mapM_ok. revert H. apply Forall_impl. intros p [Hh [Hr Hf]].
+  apply (csv_reader_sheet fl translated); assumption.
+Qed.
+
+Definition xlsx_dom (t : table str str) : Prop :=
+  hdr t <> [] /\ Forall (fun s => s <> []) (hdr t) /\ rect t.
+
+Theorem via_xlsx_gen wb :
+  Forall (fun p => xlsx_dom (snd p)) wb ->
+  via_xlsx wb = Ok (wb_map (fun t => lift_table (drop_empty_rows (tr_table t))) wb).
+Proof.
+  intros H. unfold via_xlsx, read_xlsx_wb. rewrite xl_roundtrip, wb_mapM_wb_map.
+  apply wb_mapM_ok. revert H. apply Forall_impl. intros p [Hh [Hne Hr]]. apply xlsx_sheet_gen; assumption.
 Qed.
 
 Definition xlsx_ok (t : table str str) : Prop :=
@@ -290,33 +419,39 @@ Definition xlsx_ok (t : table str str) : Prop :=
 Theorem via_xlsx_ok wb :
   Forall (fun p => xlsx_ok (snd p)) wb -> via_xlsx wb = Ok (wb_map (fun t => lift_table (tr_table t)) wb).
 Proof.
-  intros H. unfold via_xlsx, read_xlsx_wb. rewrite xl_roundtrip, wb_mapM_wb_map.
-  apply wb_mapM_ok. revert H. apply Forall_impl. intros p [Hh [Hne [Hr Hrows]]]. apply xlsx_sheet; assumption.
+  intros H. rewrite via_xlsx_gen.
+  - f_equal. apply wb_map_ext. revert H. apply Forall_impl. intros p [_ [_ [_ Hrows]]].
+    rewrite (drop_empty_rows_id (tr_table (snd p))); [reflexivity|]. apply no_empty_row_tr. exact Hrows.
+  - revert H. apply Forall_impl. unfold xlsx_ok, xlsx_dom. tauto.
 Qed.
 
-Definition json_ok (t : table str str) : Prop := NoDup (hdr t) /\ rect t /\ rws t <> [].
+Definition json_dom (t : table str str) : Prop := NoDup (hdr t) /\ rect t /\ json_carries fl t.
 
 Lemma read_json_to_json w :
-  Forall (fun p => json_ok (snd p)) w -> read_json_wb (json_loads (json_dumps (to_json_wb w))) = Ok w.
+  Forall (fun p => json_dom (snd p)) w ->
+  read_json_wb fl (json_loads (json_dumps (to_json_wb fl w))) = Ok (wb_map jdrop w).
 Proof.
   intros H. rewrite json_roundtrip. unfold read_json_wb, to_json_wb. rewrite wb_mapM_wb_map.
-  rewrite (wb_mapM_ok _ (fun t => t)).
-  - f_equal. apply wb_map_id. apply Forall_forall. reflexivity.
-  - revert H. apply Forall_impl. intros p [Hn [Hr Hrows]]. apply json_sheet; assumption.
+  apply wb_mapM_ok. revert H. apply Forall_impl. intros p [Hn [Hr Hc]]. apply json_sheet_gen; assumption.
 Qed.
 
-Theorem via_json_ok wb :
-  Forall (fun p => csv_ok (snd p)) wb -> Forall (fun p => json_ok (csv_norm translated (snd p))) wb ->
-  via_json wb = Ok (wb_map (csv_norm translated) wb).
+Theorem via_json_gen wb :
+  Forall (fun p => csv_ok (snd p)) wb -> Forall (fun p => json_dom (cdrop (csv_norm translated (snd p)))) wb ->
+  via_json wb = Ok (wb_map (fun t => jdrop (cdrop (csv_norm translated t))) wb).
 Proof.
   intros Hc Hj. unfold via_json. rewrite via_csv_ok by exact Hc.
-  apply read_json_to_json. apply Forall_wb_map. exact Hj.
+  rewrite read_json_to_json; [rewrite wb_map_wb_map; reflexivity|]. apply Forall_wb_map. exact Hj.
 Qed.
 
+Theorem via_json_direct_gen wb :
+  Forall (fun p => json_dom (snd p)) wb -> via_json_direct wb = Ok (wb_map jdrop wb).
+Proof. exact (read_json_to_json wb). Qed.
+
 (* ---- the agreement theorem, cells intact: the property's domain (rectangular sheets,
-   non-empty pairwise distinct headers, cells within the csv field limit) minus the two
-   classes where it is false (all-empty row; sheet without rows), for cells without CR
-   (a CR is newline-normalised by the CSV and XLSX readers: see formats_agree_normalised) *)
+   non-empty pairwise distinct headers, cells within the csv field limit) without rows of empty
+   cells and with at least one row per sheet, for cells without CR (a CR is newline-normalised by
+   the CSV and XLSX readers: see formats_agree_normalised).  It holds on EVERY tree (any flags):
+   the two findings concern exactly the sheets excluded here, see [formats_agree_full_decided] *)
 Definition sheet_ok (t : table str str) : Prop :=
   hdr t <> [] /\ Forall (fun s => s <> []) (hdr t) /\ NoDup (hdr t) /\ rect t /\ cells_fit t /\
   no_empty_row t /\ rws t <> [].
@@ -332,9 +467,9 @@ Theorem formats_agree wb :
   via_csv wb = Ok wb /\ via_xlsx wb = Ok (wb_map lift_table wb) /\ via_json wb = Ok wb.
 Proof.
   intros Hok Hcr. unfold wb_ok, wb_cr_free in *.
-  assert (Hnorm : wb_map (csv_norm translated) wb = wb).
-  { apply wb_map_id. rewrite Forall_forall in *. intros p Hin. destruct (Hok p Hin) as [Hh _].
-    apply csv_norm_cr_free; [exact Hh|apply Hcr, Hin]. }
+  assert (Hnorm : wb_map (fun t => cdrop (csv_norm translated t)) wb = wb).
+  { apply wb_map_id. rewrite Forall_forall in *. intros p Hin. destruct (Hok p Hin) as [Hh [_ [_ [_ [_ [Hrows _]]]]]].
+    rewrite csv_norm_cr_free; [|exact Hh|apply Hcr, Hin]. apply drop_if_id. exact Hrows. }
   assert (Htr : wb_map (fun t => lift_table (tr_table t)) wb = wb_map lift_table wb).
   { unfold wb_map. apply map_ext_in. intros p Hin. rewrite Forall_forall in *. destruct (Hok p Hin) as [Hh _].
     rewrite tr_table_cr_free; [reflexivity|exact Hh|apply Hcr, Hin]. }
@@ -343,9 +478,15 @@ Proof.
   split; [|split].
   - rewrite via_csv_ok by exact Hc. rewrite Hnorm. reflexivity.
   - rewrite via_xlsx_ok; [rewrite Htr; reflexivity|]. revert Hok. apply Forall_impl. unfold sheet_ok, xlsx_ok. tauto.
-  - rewrite via_json_ok; [rewrite Hnorm; reflexivity|exact Hc|].
-    rewrite Forall_forall in *. intros p Hin. destruct (Hok p Hin) as [Hh [_ [Hnd [Hr [_ [_ Hrows]]]]]].
-    rewrite csv_norm_cr_free; [|exact Hh|apply Hcr, Hin]. unfold json_ok. tauto.
+  - assert (Hsame : forall p, In p wb -> cdrop (csv_norm translated (snd p)) = snd p).
+    { intros p Hin. rewrite Forall_forall in *. destruct (Hok p Hin) as [Hh [_ [_ [_ [_ [Hrows _]]]]]].
+      rewrite csv_norm_cr_free; [|exact Hh|apply Hcr, Hin]. apply drop_if_id. exact Hrows. }
+    rewrite via_json_gen; [|exact Hc|].
+    + f_equal. apply wb_map_id. apply Forall_forall. intros p Hin. rewrite (Hsame p Hin).
+      rewrite Forall_forall in Hok. destruct (Hok p Hin) as [_ [_ [_ [_ [_ [Hrows _]]]]]]. apply drop_if_id. exact Hrows.
+    + apply Forall_forall. intros p Hin. rewrite (Hsame p Hin).
+      rewrite Forall_forall in Hok. destruct (Hok p Hin) as [_ [_ [Hnd [Hr [_ [_ Hrows]]]]]].
+      unfold json_dom, json_carries. tauto.
 Qed.
 
 (* the three reads, compared with each other *)
@@ -371,34 +512,95 @@ Proof.
   intros Ht Hok.
   assert (Hc : Forall (fun p => csv_ok (snd p)) wb).
   { revert Hok. apply Forall_impl. unfold sheet_ok_tr, csv_ok. tauto. }
+  assert (Hsame : forall p, In p wb -> cdrop (csv_norm translated (snd p)) = tr_table (snd p)).
+  { intros p Hin. rewrite Forall_forall in Hok. destruct (Hok p Hin) as [_ [_ [_ [_ [_ [Hrows _]]]]]].
+    rewrite Ht. unfold csv_norm. apply drop_if_id. apply no_empty_row_tr. exact Hrows. }
   split; [|split].
-  - rewrite via_csv_ok by exact Hc. rewrite Ht. reflexivity.
+  - rewrite via_csv_ok by exact Hc. f_equal. apply wb_map_ext. apply Forall_forall. exact Hsame.
   - rewrite wb_map_wb_map. apply via_xlsx_ok. revert Hok. apply Forall_impl. unfold sheet_ok_tr, xlsx_ok. tauto.
-  - rewrite via_json_ok; [rewrite Ht; reflexivity|exact Hc|].
-    revert Hok. apply Forall_impl. intros p [Hh [_ [Hnd [Hr [_ [_ Hrows]]]]]]. rewrite Ht. unfold csv_norm, json_ok.
-    split; [exact Hnd|]. split; [apply rect_tr_table, Hr|]. unfold tr_table. cbn [rws].
-    destruct (rws (snd p)); [congruence|discriminate].
+  - rewrite via_json_gen; [|exact Hc|].
+    + f_equal. apply wb_map_ext. apply Forall_forall. intros p Hin. rewrite (Hsame p Hin).
+      rewrite Forall_forall in Hok. destruct (Hok p Hin) as [_ [_ [_ [_ [_ [Hrows _]]]]]].
+      apply drop_if_id. apply no_empty_row_tr. exact Hrows.
+    + apply Forall_forall. intros p Hin. rewrite (Hsame p Hin).
+      rewrite Forall_forall in Hok. destruct (Hok p Hin) as [Hh [_ [Hnd [Hr [_ [_ Hrows]]]]]].
+      unfold json_dom, json_carries. split; [exact Hnd|]. split; [apply rect_tr_table, Hr|]. left.
+      unfold tr_table. cbn [rws]. destruct (rws (snd p)); [congruence|discriminate].
 Qed.
 
 (* ---- the unrestricted statement: the property's own quantifier ("rectangular text sheets
-   with unique non-empty headers", any number of rows, empty cells allowed) *)
+   with unique non-empty headers", any number of rows, empty cells allowed), the JSON being
+   produced by `convert` from the CSV folder (via_json) or held in `convert`'s format (via_json_direct) *)
 Definition in_property_domain (t : table str str) : Prop :=
   hdr t <> [] /\ Forall (fun s => s <> []) (hdr t) /\ NoDup (hdr t) /\ rect t /\ cells_fit t /\ cr_free t.
 
 Definition formats_agree_full : Prop :=
   forall wb, Forall (fun p => in_property_domain (snd p)) wb ->
-  rmap (wb_map lift_table) (via_csv wb) = via_xlsx wb /\ via_json wb = via_csv wb.
+  rmap (wb_map lift_table) (via_csv wb) = via_xlsx wb /\ via_json wb = via_csv wb /\ via_json_direct wb = via_csv wb.
+
+(* what the readers return on such a workbook when both repairs are in: the workbook without its
+   rows of empty cells — names, headers and every other cell intact *)
+Theorem formats_agree_full_repaired wb :
+  flags_repaired fl = true -> Forall (fun p => in_property_domain (snd p)) wb ->
+  via_csv wb = Ok (wb_map drop_empty_rows wb) /\
+  via_xlsx wb = Ok (wb_map lift_table (wb_map drop_empty_rows wb)) /\
+  via_json wb = Ok (wb_map drop_empty_rows wb) /\
+  via_json_direct wb = Ok (wb_map drop_empty_rows wb).
+Proof.
+  intros Hfl Hdom. unfold flags_repaired in Hfl.
+  apply andb_prop in Hfl; destruct Hfl as [Hfl Hw]. apply andb_prop in Hfl; destruct Hfl as [Hfl Hrd].
+  apply andb_prop in Hfl; destruct Hfl as [Hcd Hjd].
+  assert (Hc : Forall (fun p => csv_ok (snd p)) wb).
+  { revert Hdom. apply Forall_impl. unfold in_property_domain, csv_ok. tauto. }
+  assert (Hsame : forall p, In p wb -> cdrop (csv_norm translated (snd p)) = drop_empty_rows (snd p)).
+  { intros p Hin. rewrite Forall_forall in Hdom. destruct (Hdom p Hin) as [Hh [_ [_ [_ [_ Hcr]]]]].
+    rewrite csv_norm_cr_free by assumption. unfold cdrop. rewrite Hcd. reflexivity. }
+  assert (Hjdom : forall t, in_property_domain t -> json_dom t).
+  { intros t [_ [_ [Hnd [Hr _]]]]. unfold json_dom, json_carries. tauto. }
+  split; [|split; [|split]].
+  - rewrite via_csv_ok by exact Hc. f_equal. apply wb_map_ext. apply Forall_forall. exact Hsame.
+  - rewrite via_xlsx_gen.
+    + rewrite wb_map_wb_map. f_equal. apply wb_map_ext. revert Hdom. apply Forall_impl.
+      intros p [Hh [_ [_ [_ [_ Hcr]]]]]. rewrite tr_table_cr_free by assumption. reflexivity.
+    + revert Hdom. apply Forall_impl. unfold in_property_domain, xlsx_dom. tauto.
+  - rewrite via_json_gen; [|exact Hc|].
+    + f_equal. apply wb_map_ext. apply Forall_forall. intros p Hin. rewrite (Hsame p Hin).
+      unfold jdrop. rewrite Hjd. apply (drop_empty_rows_idem (snd p)).
+    + apply Forall_forall. intros p Hin. rewrite (Hsame p Hin).
+      rewrite Forall_forall in Hdom. destruct (Hdom p Hin) as [_ [_ [Hnd [Hr _]]]].
+      unfold json_dom, json_carries. split; [exact Hnd|]. split; [apply rect_drop_empty_rows, Hr|]. tauto.
+  - rewrite via_json_direct_gen.
+    + f_equal. apply wb_map_ext. apply Forall_forall. intros p _. unfold jdrop. rewrite Hjd. reflexivity.
+    + revert Hdom. apply Forall_impl. intros p Hp. apply Hjdom, Hp.
+Qed.
+
+Corollary formats_agree_full_holds : flags_repaired fl = true -> formats_agree_full.
+Proof.
+  intros Hfl wb Hdom. destruct (formats_agree_full_repaired wb Hfl Hdom) as [E1 [E2 [E3 E4]]].
+  rewrite E1, E2, E3, E4. repeat split; reflexivity.
+Qed.
 
 Local Open Scope N_scope.
 
-(* witness 1 (finding "all-empty row"): one sheet "s", header "a", one row with an empty
-   cell.  CSV keeps the row, _sanitize drops it. *)
-Definition wb_empty_row : workbook (table str str) := [([115], mkT [[97]] [[[]]])].
+(* witness 1 (finding "all-empty row"): one sheet "s", header "a", rows "x" and "" — a row with
+   content and a row without.  A CSV / JSON reader that keeps the second row disagrees with
+   `_sanitize`, which has always omitted it. *)
+Definition wb_empty_row : workbook (table str str) := [([115], mkT [[97]] [[[120]]; [[]]])].
+(* the smallest such sheet: ONLY a row without content (needs both repairs: once that row is
+   omitted the sheet has no rows) *)
+Definition wb_only_empty_row : workbook (table str str) := [([115], mkT [[97]] [[[]]])].
 (* witness 2 (finding "sheet without rows"): one sheet "s", header "a", no rows.  CSV and
-   XLSX keep the header, convert + JSONSheetReader return a table without headers. *)
+   XLSX keep the header; `convert` + JSONSheetReader return a table without headers unless the
+   headers travel in the object form. *)
 Definition wb_header_only : workbook (table str str) := [([115], mkT [[97]] [])].
 
 Lemma wb_empty_row_in_domain : Forall (fun p => in_property_domain (snd p)) wb_empty_row.
+Proof.
+  constructor; [|constructor]. unfold in_property_domain, rect, cells_fit, cr_free. cbn [hdr rws package_rows snd].
+  repeat dom_step.
+Qed.
+
+Lemma wb_only_empty_row_in_domain : Forall (fun p => in_property_domain (snd p)) wb_only_empty_row.
 Proof.
   constructor; [|constructor]. unfold in_property_domain, rect, cells_fit, cr_free. cbn [hdr rws package_rows snd].
   repeat dom_step.
@@ -410,43 +612,171 @@ Proof.
   repeat dom_step.
 Qed.
 
+(* what the three formats give on witness 1, on every tree *)
+Theorem empty_row_witness :
+  via_csv wb_empty_row = Ok (wb_map cdrop wb_empty_row) /\
+  via_xlsx wb_empty_row = Ok [([115], mkT [Some [97]] [[[120]]])] /\
+  via_json_direct wb_empty_row = Ok (wb_map jdrop wb_empty_row).
+Proof.
+  split; [|split].
+  - unfold via_csv, cdrop. destruct fl as [a b c e]. cbn [rf_csv_drop]. destruct a, translated; vm_compute; reflexivity.
+  - unfold via_xlsx. rewrite xl_roundtrip. vm_compute. reflexivity.
+  - unfold via_json_direct, jdrop. rewrite json_roundtrip.
+    destruct fl as [a b c e]. cbn [rf_json_drop]. destruct a, b, c, e; vm_compute; reflexivity.
+Qed.
+
+(* a tree whose CSV reader keeps rows without content *)
 Theorem formats_agree_empty_row_refuted :
+  rf_csv_drop fl = false ->
   via_csv wb_empty_row = Ok wb_empty_row /\
-  via_xlsx wb_empty_row = Ok [([115], mkT [Some [97]] [])] /\
+  via_xlsx wb_empty_row = Ok [([115], mkT [Some [97]] [[[120]]])] /\
   rmap (wb_map lift_table) (via_csv wb_empty_row) <> via_xlsx wb_empty_row.
 Proof.
-  assert (E1 : via_csv wb_empty_row = Ok wb_empty_row) by (unfold via_csv; destruct translated; vm_compute; reflexivity).
-  assert (E2 : via_xlsx wb_empty_row = Ok [([115], mkT [Some [97]] [])]).
-  { unfold via_xlsx. rewrite xl_roundtrip. vm_compute. reflexivity. }
+  intros Hcd. destruct empty_row_witness as [E1 [E2 _]]. unfold cdrop in E1. rewrite Hcd in E1.
+  change (wb_map (drop_if false) wb_empty_row) with wb_empty_row in E1.
   split; [exact E1|]. split; [exact E2|]. rewrite E1, E2. vm_compute. discriminate.
+Qed.
+
+(* a tree whose CSV reader omits them and whose JSON reader does not *)
+Theorem formats_agree_empty_row_json_refuted :
+  rf_csv_drop fl = true -> rf_json_drop fl = false ->
+  via_json_direct wb_empty_row = Ok wb_empty_row /\
+  via_json_direct wb_empty_row <> via_csv wb_empty_row.
+Proof.
+  intros Hcd Hjd. destruct empty_row_witness as [E1 [_ E3]]. unfold cdrop in E1. unfold jdrop in E3. rewrite Hcd in E1. rewrite Hjd in E3.
+  change (wb_map (drop_if false) wb_empty_row) with wb_empty_row in E3.
+  split; [exact E3|]. rewrite E1, E3. vm_compute. discriminate.
+Qed.
+
+(* witness 2 on every tree: the CSV reader keeps the headers; `convert` + JSONSheetReader keep them
+   iff the object form is both written and read *)
+Theorem header_only_witness :
+  via_csv wb_header_only = Ok wb_header_only /\
+  via_json wb_header_only =
+    (if rf_tojson_table fl then (if rf_json_table fl then Ok wb_header_only else Err EFormat)
+     else Ok [([115], empty_table)]).
+Proof.
+  assert (E1 : via_csv wb_header_only = Ok wb_header_only).
+  { unfold via_csv. destruct fl as [a b c e]. destruct a, translated; vm_compute; reflexivity. }
+  split; [exact E1|]. unfold via_json. rewrite E1, json_roundtrip.
+  destruct fl as [a b c e]. cbn [rf_tojson_table rf_json_table]. destruct a, b, c, e; vm_compute; reflexivity.
 Qed.
 
 Theorem formats_agree_header_only_refuted :
+  rf_tojson_table fl && rf_json_table fl = false ->
   via_csv wb_header_only = Ok wb_header_only /\
-  via_json wb_header_only = Ok [([115], empty_table)] /\
   via_json wb_header_only <> via_csv wb_header_only.
 Proof.
-  assert (E1 : via_csv wb_header_only = Ok wb_header_only) by (unfold via_csv; destruct translated; vm_compute; reflexivity).
-  assert (E2 : via_json wb_header_only = Ok [([115], empty_table)]).
-  { unfold via_json. rewrite E1, json_roundtrip. vm_compute. reflexivity. }
-  split; [exact E1|]. split; [exact E2|]. rewrite E1, E2. vm_compute. discriminate.
+  intros Hf. destruct header_only_witness as [E1 E2]. split; [exact E1|]. rewrite E1, E2.
+  destruct (rf_tojson_table fl); [destruct (rf_json_table fl); [discriminate Hf|discriminate]|].
+  vm_compute. discriminate.
 Qed.
 
-Theorem formats_agree_full_refuted : ~ formats_agree_full.
+Theorem formats_agree_full_refuted : flags_repaired fl = false -> ~ formats_agree_full.
 Proof.
-  intros H. destruct (H wb_empty_row wb_empty_row_in_domain) as [E _].
-  destruct formats_agree_empty_row_refuted as [_ [_ Hne]]. exact (Hne E).
+  intros Hfl H. unfold flags_repaired in Hfl.
+  destruct (rf_csv_drop fl) eqn:Hcd.
+  - destruct (rf_json_drop fl) eqn:Hjd.
+    + cbn [andb] in Hfl. rewrite andb_comm in Hfl.
+      destruct (H wb_header_only wb_header_only_in_domain) as [_ [E _]].
+      destruct (formats_agree_header_only_refuted Hfl) as [_ Hne]. exact (Hne E).
+    + destruct (H wb_empty_row wb_empty_row_in_domain) as [_ [_ E]].
+      destruct (formats_agree_empty_row_json_refuted Hcd Hjd) as [_ Hne]. exact (Hne E).
+  - destruct (H wb_empty_row wb_empty_row_in_domain) as [E _].
+    destruct (formats_agree_empty_row_refuted Hcd) as [_ [_ Hne]]. exact (Hne E).
 Qed.
 
-(* the second witness alone refutes it too (a different defect) *)
-Theorem formats_agree_full_refuted_by_header_only :
-  ~ (forall wb, Forall (fun p => in_property_domain (snd p)) wb -> via_json wb = via_csv wb).
+(* DECIDED by the flags of the tree: the statement over the property's whole domain holds exactly
+   on a tree with both repairs *)
+Theorem formats_agree_full_decided :
+  if flags_repaired fl then formats_agree_full else ~ formats_agree_full.
 Proof.
-  intros H. destruct formats_agree_header_only_refuted as [_ [_ Hne]].
-  exact (Hne (H wb_header_only wb_header_only_in_domain)).
+  destruct (flags_repaired fl) eqn:E; [apply formats_agree_full_holds, E|apply formats_agree_full_refuted, E].
+Qed.
+
+(* ---- per finding.  (1) rows without content: every sheet of the property's domain that keeps at
+   least one row with content — the three readers (and JSON held in convert's format) agree, on
+   the workbook without those rows, exactly on a tree whose CSV and JSON readers omit them *)
+Definition has_content_row (t : table str str) : Prop := exists r, In r (rws t) /\ keep_row r = true.
+
+Definition empty_rows_agree : Prop :=
+  forall wb, Forall (fun p => in_property_domain (snd p) /\ has_content_row (snd p)) wb ->
+  via_csv wb = Ok (wb_map drop_empty_rows wb) /\
+  via_xlsx wb = Ok (wb_map lift_table (wb_map drop_empty_rows wb)) /\
+  via_json wb = Ok (wb_map drop_empty_rows wb) /\
+  via_json_direct wb = Ok (wb_map drop_empty_rows wb).
+
+Lemma has_content_row_drop t : has_content_row t -> rws (drop_empty_rows t) <> [].
+Proof.
+  intros [r [Hin Hk]] E. assert (Hf : In r (rws (drop_empty_rows t))).
+  { unfold drop_empty_rows. cbn [rws]. apply filter_In. split; [exact Hin|exact Hk]. }
+  rewrite E in Hf. exact Hf.
+Qed.
+
+Theorem empty_rows_agree_holds : rf_csv_drop fl = true -> rf_json_drop fl = true -> empty_rows_agree.
+Proof.
+  intros Hcd Hjd wb Hdom.
+  assert (Hdom' : Forall (fun p => in_property_domain (snd p)) wb) by (revert Hdom; apply Forall_impl; tauto).
+  assert (Hc : Forall (fun p => csv_ok (snd p)) wb).
+  { revert Hdom'. apply Forall_impl. unfold in_property_domain, csv_ok. tauto. }
+  assert (Hsame : forall p, In p wb -> cdrop (csv_norm translated (snd p)) = drop_empty_rows (snd p)).
+  { intros p Hin. rewrite Forall_forall in Hdom'. destruct (Hdom' p Hin) as [Hh [_ [_ [_ [_ Hcr]]]]].
+    rewrite csv_norm_cr_free by assumption. unfold cdrop. rewrite Hcd. reflexivity. }
+  split; [|split; [|split]].
+  - rewrite via_csv_ok by exact Hc. f_equal. apply wb_map_ext. apply Forall_forall. exact Hsame.
+  - rewrite via_xlsx_gen.
+    + rewrite wb_map_wb_map. f_equal. apply wb_map_ext. revert Hdom'. apply Forall_impl.
+      intros p [Hh [_ [_ [_ [_ Hcr]]]]]. rewrite tr_table_cr_free by assumption. reflexivity.
+    + revert Hdom'. apply Forall_impl. unfold in_property_domain, xlsx_dom. tauto.
+  - rewrite via_json_gen; [|exact Hc|].
+    + f_equal. apply wb_map_ext. apply Forall_forall. intros p Hin. rewrite (Hsame p Hin).
+      unfold jdrop. rewrite Hjd. apply (drop_empty_rows_idem (snd p)).
+    + apply Forall_forall. intros p Hin. rewrite (Hsame p Hin).
+      rewrite Forall_forall in Hdom. destruct (Hdom p Hin) as [[_ [_ [Hnd [Hr _]]]] Hrow].
+      unfold json_dom, json_carries. split; [exact Hnd|]. split; [apply rect_drop_empty_rows, Hr|].
+      left. apply has_content_row_drop, Hrow.
+  - rewrite via_json_direct_gen.
+    + f_equal. apply wb_map_ext. apply Forall_forall. intros p _. unfold jdrop. rewrite Hjd. reflexivity.
+    + revert Hdom. apply Forall_impl. intros p [[_ [_ [Hnd [Hr _]]]] [r [Hin _]]].
+      unfold json_dom, json_carries. split; [exact Hnd|]. split; [exact Hr|]. left. intros E. rewrite E in Hin. exact Hin.
+Qed.
+
+Lemma wb_empty_row_has_content : Forall (fun p => in_property_domain (snd p) /\ has_content_row (snd p)) wb_empty_row.
+Proof.
+  pose proof wb_empty_row_in_domain as H. inversion H as [|p l Hp _]; subst.
+  constructor; [|constructor]. split; [exact Hp|]. exists [[120]]. split; [left; reflexivity|reflexivity].
+Qed.
+
+Theorem empty_rows_agree_decided :
+  if rf_csv_drop fl && rf_json_drop fl then empty_rows_agree else ~ empty_rows_agree.
+Proof.
+  destruct (rf_csv_drop fl) eqn:Hcd; [destruct (rf_json_drop fl) eqn:Hjd|]; cbn [andb].
+  - apply empty_rows_agree_holds; assumption.
+  - intros H. destruct (H wb_empty_row wb_empty_row_has_content) as [E1 [_ [_ E4]]].
+    destruct (formats_agree_empty_row_json_refuted Hcd Hjd) as [_ Hne]. apply Hne. rewrite E1, E4. reflexivity.
+  - intros H. destruct (H wb_empty_row wb_empty_row_has_content) as [E1 [E2 _]].
+    destruct (formats_agree_empty_row_refuted Hcd) as [_ [_ Hne]]. apply Hne. rewrite E1, E2. reflexivity.
 Qed.
 
 End Agree.
+
+(* ---- per finding.  (2) sheets without rows: EVERY table with pairwise distinct headers — with or
+   without rows — comes back from `convert` + JSONSheetReader (up to the rows without content the
+   JSON reader omits), exactly on a tree that writes and reads the object form *)
+Definition json_roundtrip_all (fl : reader_flags) : Prop :=
+  forall t : table str str, NoDup (hdr t) -> rect t ->
+  read_json_sheet fl (to_json_sheet fl t) = Ok (drop_if (rf_json_drop fl) t).
+
+Theorem json_roundtrip_all_decided fl :
+  if rf_tojson_table fl && rf_json_table fl then json_roundtrip_all fl else ~ json_roundtrip_all fl.
+Proof.
+  destruct (rf_tojson_table fl && rf_json_table fl) eqn:E.
+  - apply andb_prop in E. destruct E as [E1 E2]. intros t Hnd Hr. apply json_sheet_gen; [exact Hnd|exact Hr|].
+    unfold json_carries. tauto.
+  - intros H. specialize (H (mkT [[97%N]] []) ltac:(repeat constructor; intros []) ltac:(constructor)).
+    destruct fl as [a b c e]. cbn [rf_tojson_table rf_json_table rf_json_drop] in *.
+    destruct b, c, e; try discriminate E; vm_compute in H; discriminate H.
+Qed.
 
 (* ================================================================== non-vacuity *)
 
@@ -478,9 +808,9 @@ Example formats_agree_nonvacuous :
   let loads := fun b : workbook jsheet => b in
   (forall wb, xl_load (xl_write wb) = wb_map xl_grid wb) /\ (forall b, loads (dumps b) = b) /\
   wb_ok ex_wb /\ wb_cr_free ex_wb /\
-  via_csv load_csv_translated ex_wb = Ok ex_wb /\
+  via_csv tree_flags load_csv_translated ex_wb = Ok ex_wb /\
   via_xlsx _ xl_write xl_load ex_wb = Ok (wb_map lift_table ex_wb) /\
-  via_json _ dumps loads load_csv_translated ex_wb = Ok ex_wb.
+  via_json _ dumps loads tree_flags load_csv_translated ex_wb = Ok ex_wb.
 Proof.
   cbv zeta. split; [reflexivity|]. split; [reflexivity|].
   destruct ex_wb_ok as [H1 H2]. split; [exact H1|]. split; [exact H2|].
@@ -494,7 +824,7 @@ Definition ex_wb_cr : workbook (table str str) :=
 Example formats_agree_normalised_nonvacuous :
   load_csv_translated = true /\
   Forall (fun p => sheet_ok_tr (snd p)) ex_wb_cr /\ wb_map tr_table ex_wb_cr <> ex_wb_cr /\
-  via_csv load_csv_translated ex_wb_cr = Ok (wb_map tr_table ex_wb_cr).
+  via_csv tree_flags load_csv_translated ex_wb_cr = Ok (wb_map tr_table ex_wb_cr).
 Proof.
   assert (Ht : load_csv_translated = true) by reflexivity.
   assert (Hok : Forall (fun p => sheet_ok_tr (snd p)) ex_wb_cr).
@@ -503,7 +833,7 @@ Proof.
     - exists [120; 13; 10; 121]. split; [left; reflexivity|discriminate].
     - exists [122; 13]. split; [right; left; reflexivity|discriminate]. }
   split; [exact Ht|]. split; [exact Hok|]. split; [vm_compute; discriminate|].
-  apply (formats_agree_normalised _ _ (wb_map xl_grid) (fun x => x) (fun b => b) (fun b => b)); auto.
+  apply (formats_agree_normalised _ _ (wb_map xl_grid) (fun x => x) (fun b => b) (fun b => b) (fun _ => eq_refl) (fun _ => eq_refl) tree_flags); auto.
 Qed.
 
 (* at the regenerated newline mode of load_csv *)
@@ -515,12 +845,65 @@ Theorem formats_agree_normalised_tables :
          (json_dumps : workbook jsheet -> J) (json_loads : J -> workbook jsheet),
   (forall wb, xl_load (xl_write wb) = wb_map xl_grid wb) ->
   (forall b, json_loads (json_dumps b) = b) ->
-  forall wb : workbook (table str str),
+  forall (fl : reader_flags) (wb : workbook (table str str)),
   Forall (fun p => sheet_ok_tr (snd p)) wb ->
-  via_csv load_csv_translated wb = Ok (wb_map tr_table wb) /\
+  via_csv fl load_csv_translated wb = Ok (wb_map tr_table wb) /\
   via_xlsx X xl_write xl_load wb = Ok (wb_map lift_table (wb_map tr_table wb)) /\
-  via_json J json_dumps json_loads load_csv_translated wb = Ok (wb_map tr_table wb).
+  via_json J json_dumps json_loads fl load_csv_translated wb = Ok (wb_map tr_table wb).
 Proof.
-  intros X J xw xlo jd jl Hx Hj wb Hok.
-  exact (formats_agree_normalised X J xw xlo jd jl Hx Hj load_csv_translated wb load_csv_translated_true Hok).
+  intros X J xw xlo jd jl Hx Hj fl wb Hok.
+  exact (formats_agree_normalised X J xw xlo jd jl Hx Hj fl load_csv_translated wb load_csv_translated_true Hok).
 Qed.
+
+(* ---- the whole domain of the property: a workbook with rows of empty cells (first, middle, last,
+   and a sheet that holds nothing else), a sheet without rows, commas, quotes, LF, non-ASCII.
+   With both repairs (flags all true) the four reads agree on the workbook without those rows. *)
+Definition flags_all (b : bool) : reader_flags :=
+  {| rf_csv_drop := b; rf_json_drop := b; rf_json_table := b; rf_tojson_table := b |}.
+
+Definition ex_wb_full : workbook (table str str) :=
+  [ ([115; 49], mkT [[97]; [98; 32; 99]] [[[]; []]; [[120; 44; 121]; []]; [[]; []]; [[]; [34; 10; 19990]]; [[]; []]]);
+    ([101], mkT [[105; 100]] [[[]]]);
+    ([104], mkT [[105; 100]; [118]] []) ].
+
+Lemma ex_wb_full_in_domain : Forall (fun p => in_property_domain (snd p)) ex_wb_full.
+Proof.
+  unfold ex_wb_full. repeat (constructor; [|try constructor]);
+    unfold in_property_domain, rect, cells_fit, cr_free; cbn [hdr rws package_rows snd]; repeat dom_step.
+Qed.
+
+Example formats_agree_full_nonvacuous :
+  let xl_write := wb_map xl_grid in
+  let xl_load := fun x : workbook (list (list xcell)) => x in
+  let dumps := fun b : workbook jsheet => b in
+  let loads := fun b : workbook jsheet => b in
+  flags_repaired (flags_all true) = true /\ flags_repaired (flags_all false) = false /\
+  Forall (fun p => in_property_domain (snd p)) ex_wb_full /\
+  wb_map drop_empty_rows ex_wb_full =
+    [ ([115; 49], mkT [[97]; [98; 32; 99]] [[[120; 44; 121]; []]; [[]; [34; 10; 19990]]]);
+      ([101], mkT [[105; 100]] []); ([104], mkT [[105; 100]; [118]] []) ] /\
+  via_csv (flags_all true) load_csv_translated ex_wb_full = Ok (wb_map drop_empty_rows ex_wb_full) /\
+  via_xlsx _ xl_write xl_load ex_wb_full = Ok (wb_map lift_table (wb_map drop_empty_rows ex_wb_full)) /\
+  via_json _ dumps loads (flags_all true) load_csv_translated ex_wb_full = Ok (wb_map drop_empty_rows ex_wb_full) /\
+  via_json_direct _ dumps loads (flags_all true) ex_wb_full = Ok (wb_map drop_empty_rows ex_wb_full).
+Proof.
+  cbv zeta. split; [reflexivity|]. split; [reflexivity|]. split; [exact ex_wb_full_in_domain|].
+  split; [vm_compute; reflexivity|].
+  apply (formats_agree_full_repaired _ _ (wb_map xl_grid) (fun x => x) (fun b => b) (fun b => b) (fun _ => eq_refl) (fun _ => eq_refl)
+           (flags_all true) load_csv_translated ex_wb_full eq_refl ex_wb_full_in_domain).
+Qed.
+
+(* the decided statements at the flags of the tree at hand *)
+Theorem formats_agree_full_tree :
+  forall (X J : Type) (xl_write : workbook (table str str) -> X) (xl_load : X -> workbook (list (list xcell)))
+         (json_dumps : workbook jsheet -> J) (json_loads : J -> workbook jsheet),
+  (forall wb, xl_load (xl_write wb) = wb_map xl_grid wb) ->
+  (forall b, json_loads (json_dumps b) = b) ->
+  forall translated : bool,
+  if flags_repaired tree_flags
+  then formats_agree_full X J xl_write xl_load json_dumps json_loads tree_flags translated
+  else ~ formats_agree_full X J xl_write xl_load json_dumps json_loads tree_flags translated.
+Proof.
+  intros X J xw xlo jd jl Hx Hj tr. exact (formats_agree_full_decided X J xw xlo jd jl Hx Hj tree_flags tr).
+Qed.
+
